@@ -16,5 +16,6 @@ MONITORS = {
     "C12": ["monitors.c12"],
     "C13": ["monitors.c13"],
     "C14": ["monitors.c14"],
+    "C15": ["monitors.c15"],
     "C16": ["monitors.c16"],
 }
